@@ -138,7 +138,7 @@ class Rejection:
         self.chunk_dir, self.line_no, self.line, self.reason, self.tlc_out = chunk_dir, line_no, line, reason, tlc_out
 
 
-def validate_chunk(spec, cfg, chunk_dir, timeout=1800, deque=False):
+def validate_chunk(spec, cfg, chunk_dir, timeout=1800, deque=False, debug_rerun=True):
     r = tlc(spec, cfg, chunk_dir, workers=1, timeout=timeout, heap="3g", deque=deque)
     with open(os.path.join(chunk_dir, "trace.ndjson")) as f:
         lines = f.readlines()
@@ -159,7 +159,7 @@ def validate_chunk(spec, cfg, chunk_dir, timeout=1800, deque=False):
     bad = r.reached + 1
     out = r.out
     dbg = cfg.replace(".cfg", "_debug.cfg")
-    if os.path.exists(os.path.join(SPEC, dbg)):
+    if debug_rerun and os.path.exists(os.path.join(SPEC, dbg)):
         try:
             r2 = tlc(spec, dbg, chunk_dir, workers=1, timeout=timeout, heap="3g", deque=deque)
             i = r2.out.find('<< "')
@@ -270,7 +270,7 @@ def run_table_check(prop, tier, seed, work, *, mc, trace, driver_args, key_fn, l
 
 def finish_trace_check(prop, tier, seed, work, trace_path, trace, key_fn, level, assumptions, rule, *,
                        states, transitions, t0, extra_cov=None, boundary=None, nontrivial_fn=None,
-                       ntraces=None, deque=False):
+                       ntraces=None, deque=False, selftest=True):
     tr_spec, tr_cfg = trace
     known = known_findings().get(prop, {})
     printed_known, violations, total = set(), [], 0
@@ -331,6 +331,8 @@ def finish_trace_check(prop, tier, seed, work, trace_path, trace, key_fn, level,
         print("  reason: %s" % rj.reason)
         rc = EXIT_VIOLATION
     cov["known_findings_reported"] = sorted(printed_known)
+    if selftest and rc == EXIT_OK and not printed_known and (tier == "thorough" or os.environ.get("VERIF_SELFTEST")):
+        cov["binding_selftest"] = selftest_groups(prop, [(trace_path, trace)], work, seed)
     write_evidence(prop, tier, seed, level, cov, assumptions, time.time() - t0, violations=len(seen))
     return rc
 
@@ -395,7 +397,7 @@ def run_stateful_check(prop, tier, seed, work, *, mc_list, groups, key_fn, level
         os.makedirs(gw, exist_ok=True)
         rc = finish_trace_check(prop, tier, seed, gw, trace_path, (tspec, tcfg), key_fn, level, assumptions, rule,
                                 states=states, transitions=transitions, t0=t0, boundary=lambda ln: '"ev":"init"' in ln,
-                                ntraces=n_init, nontrivial_fn=nontrivial_fn)
+                                ntraces=n_init, nontrivial_fn=nontrivial_fn, selftest=False)
         ev = json.load(open(os.path.join(EVIDENCE, prop + ".json")))
         ntr += ev["coverage"]["traces_validated_against_impl"]
         nev += ev["coverage"]["events_validated"]
@@ -422,64 +424,94 @@ def run_stateful_check(prop, tier, seed, work, *, mc_list, groups, key_fn, level
         cov.update(extra_cov)
     if infra_notes:
         cov["infrastructure_trouble_after_violation"] = infra_notes
+    if rc_all == EXIT_OK and (tier == "thorough" or os.environ.get("VERIF_SELFTEST")):
+        cov["binding_selftest"] = selftest_groups(prop, [(tp, (g[0], g[1])) for tp, g in zip(all_traces, groups)], work, seed)
     write_evidence(prop, tier, seed, level, cov, assumptions, time.time() - t0, violations=nviol)
     return rc_all
 
 
-def binding_selftest(trace_path, trace, work, boundary=None, k=6, seed=1):
-    """Binding demonstration: corrupt single recorded observations of an accepted trace (flip a verdict, bump a number in a
-    projected state, drop an event) and confirm that the trace specification rejects each corrupted trace.
-    Returns dict(tried=, rejected=, missed=[...]) - recorded in the evidence; a miss is a weakness of the check, not a
-    verdict about the code."""
+def selftest_groups(prop, traces, work, seed):
+    """Run the binding self-test on every accepted (trace, trace configuration) pair; returns the evidence entry."""
+    out = []
+    for tp, tr in traces:
+        try:
+            r = binding_selftest(tp, tr, work, k=8, seed=seed)
+        except Exception as e:      # never lets the self-test decide anything
+            r = dict(tried=0, rejected=0, not_constrained=[], trouble=str(e)[:300])
+        r["cfg"] = tr[1]
+        out.append(r)
+        log("%s: binding self-test %s: %d of %d single-observation corruptions rejected" % (prop, tr[1], r["rejected"], r["tried"]))
+    return out
+
+
+_FLAGS = ("ok", "accept", "admitted", "impl", "same", "identical", "valsEqual", "queriesEqual", "cometOk", "msgOk", "err", "applied", "halted", "errored", "panicked")
+_OBS_EVENTS = ("input", "end", "commit", "reimport", "restart", "abandon", "result", "case", "check", "export", "finalize", "process", "prepare",
+               "vote", "accept", "newvoter", "blockmsg", "deposit", "exec")
+
+
+def _mutations(ln, rnd):
+    """Candidate single-observation corruptions of one trace line: (description, new line).  Only values the implementation
+    REPORTED are touched (verdict flags, the state read back after a step); the scripted inputs are left alone, since a
+    different input is just a different, equally valid, history."""
+    out = []
+    m = re.search(r'"ev":"(\w+)"', ln)
+    if m and m.group(1) not in _OBS_EVENTS:
+        return out
+    evname = m.group(1) if m else "row"
+    for f in _FLAGS:
+        for a, b in (("true", "false"), ("false", "true")):
+            pat = '"%s":%s' % (f, a)
+            if pat in ln:
+                out.append(("flip %s=%s" % (f, a), ln.replace(pat, '"%s":%s' % (f, b), 1)))
+    for key in ('"st":', '"C":', '"after":'):
+        k = ln.find(key)
+        if k < 0 or evname == "init":
+            continue
+        nums = [x for x in re.finditer(r'(?<=[:\[,])(\d{1,6})(?=[,\]}])', ln[k:])]
+        for x in rnd.sample(nums, min(3, len(nums))):
+            a, b = k + x.start(1), k + x.end(1)
+            out.append(("bump observed number at col %d (%s)" % (a, ln[max(k, a - 24):a]), ln[:a] + str(int(ln[a:b]) + 1) + ln[b:]))
+    return out
+
+
+def binding_selftest(trace_path, trace, work, k=8, seed=1):
+    """Binding demonstration: corrupt ONE recorded observation of an accepted trace (flip a reported verdict, change a
+    number in a state the implementation reported) and confirm that the trace specification rejects the corrupted trace.
+    Returns dict(tried=, rejected=, missed=[...]) for the evidence.  A miss is not a verdict about the code: it shows a
+    recorded field this configuration's slice does not constrain."""
     import random
     rnd = random.Random(seed)
     with open(trace_path) as f:
         lines = f.readlines()
-    # work on one run only (from an init line to the next) to keep it fast
     starts = [i for i, l in enumerate(lines) if '"ev":"init"' in l] or [0]
-    s0 = rnd.choice(starts)
-    nxt = [i for i in starts if i > s0]
-    seg = lines[s0:(nxt[0] if nxt else min(len(lines), s0 + 400))]
-    if len(seg) < 5:
-        return dict(tried=0, rejected=0, missed=[])
-    tried, rejected, missed = 0, 0, []
-    flips = [('"ok":true', '"ok":false'), ('"ok":false', '"ok":true'), ('"accept":true', '"accept":false'), ('"accept":false', '"accept":true'),
-             ('"admitted":true', '"admitted":false'), ('"admitted":false', '"admitted":true'), ('"impl":true', '"impl":false'),
-             ('"impl":false', '"impl":true'), ('"same":true', '"same":false'), ('"identical":true', '"identical":false')]
-    for t in range(k * 6):
-        if tried >= k:
+    todo = []
+    for attempt in range(k * 8):
+        if len(todo) >= k:
             break
-        i = rnd.randrange(1, len(seg))
-        ln = seg[i]
-        how = None
-        cands = [(a, b) for a, b in flips if a in ln]
-        nums = list(re.finditer(r'"(power|seq|epoch|nonce|tip|amount|reward|number|cursor|nextPid)":(\d+)', ln))
-        choice = rnd.random()
-        if cands and choice < 0.5:
-            a, b = rnd.choice(cands)
-            new = ln.replace(a, b, 1)
-            how = "flip %s" % a
-        elif nums and choice < 0.85:
-            m = rnd.choice(nums)
-            new = ln[:m.start(2)] + str(int(m.group(2)) + 1) + ln[m.end(2):]
-            how = "bump %s" % m.group(1)
-        elif '"ev":"end"' in ln or '"ev":"commit"' in ln:
-            new = None
-            how = "drop %s event" % ("end" if '"ev":"end"' in ln else "commit")
-        else:
+        s0 = rnd.choice(starts)
+        nxt = [i for i in starts if i > s0]
+        seg = lines[s0:(nxt[0] if nxt else min(len(lines), s0 + 400))]
+        if len(seg) < 3:
             continue
-        mutated = seg[:i] + ([new] if new is not None else []) + seg[i + 1:]
+        i = rnd.randrange(1, len(seg))
+        muts = _mutations(seg[i], rnd)
+        if not muts:
+            continue
+        how, new = rnd.choice(muts)
+        todo.append((how, i, seg[:i] + [new] + seg[i + 1:], seg[i]))
+
+    def one(job):
+        how, i, mutated, orig = job
         d = tempfile.mkdtemp(prefix="selftest", dir=work)
         with open(os.path.join(d, "trace.ndjson"), "w") as f:
             f.writelines(mutated)
         try:
-            n, rej = validate_chunk(trace[0], trace[1], d)
+            n, rej = validate_chunk(trace[0], trace[1], d, debug_rerun=False)
         except Infra:
-            rej = True   # a crash of the validator on a corrupted trace also means "not accepted"
-        tried += 1
-        if rej:
-            rejected += 1
-        else:
-            missed.append("%s at line %d: %s" % (how, i + 1, ln.strip()[:160]))
+            rej = True   # the validator choking on a corrupted trace also means "not accepted"
         shutil.rmtree(d, ignore_errors=True)
-    return dict(tried=tried, rejected=rejected, missed=missed)
+        return None if rej else "%s in event %d: %s" % (how, i + 1, orig.strip()[:140])
+    with ThreadPoolExecutor(max_workers=8) as ex:
+        res = list(ex.map(one, todo))
+    missed = [r for r in res if r]
+    return dict(tried=len(todo), rejected=len(todo) - len(missed), not_constrained=missed)
